@@ -478,7 +478,8 @@ def _clone(v):
 class Scenario(object):
     """Finite facts a path depends on."""
     def __init__(self, name='', bind=None, axioms=None, inline=None, inline_props=None, max_depth=3, self_cls=None,
-                 args=None, unroll=None, oracle=None, forward_stores=True, model_del=True, join_unknown=False):
+                 args=None, unroll=None, oracle=None, forward_stores=True, model_del=True, join_unknown=False,
+                 canonical_objs=False):
         self.name = name
         self.bind = bind or {}            # dotted path -> Val
         self.axioms = axioms or {}        # normalised condition text -> bool
@@ -492,6 +493,7 @@ class Scenario(object):
         self.forward_stores = forward_stores   # False for parse methods: attribute stores go through property setters
         self.model_del = model_del        # del buf[:n] rebinds buf to the remaining octets (False for reader-sequence extraction)
         self.join_unknown = join_unknown  # undecided `if`: run both arms and join the normal exits (call/store sets are united)
+        self.canonical_objs = canonical_objs   # locally constructed objects are named <Class> / <Class#k> instead of after their local variable
 
 
 BUILTIN_TYPES = {'str', 'bytes', 'bytearray', 'int', 'bool', 'list', 'tuple', 'set', 'dict', 'NoneType', 'datetime',
@@ -692,7 +694,11 @@ class Frame(object):
         rhs_names = frozenset(n.id for n in ast.walk(rhs) if isinstance(n, ast.Name)) if isinstance(rhs, ast.AST) else frozenset()
         if isinstance(target, ast.Name):
             if isinstance(v, Obj) and v.name.startswith('<new'):
-                v = Obj(target.id, v.cls, v.text)
+                oname = target.id
+                if self.sc.canonical_objs and v.cls is not None:
+                    k = 1 + len({x.name for x in st.env.values() if isinstance(x, Obj) and x.cls is v.cls and x.name.startswith('<' + v.cls.name)})
+                    oname = '<%s>' % v.cls.name if k == 1 else '<%s#%d>' % (v.cls.name, k)
+                v = Obj(oname, v.cls, v.text)
             st.env[target.id] = v
             st.events.append(('assign', target.id, render(event_val if event_val is not None else v), getattr(node, 'lineno', 0), rhs_names))
         elif isinstance(target, (ast.Tuple, ast.List)):
@@ -1498,7 +1504,16 @@ class Frame(object):
     # ------------------------------------------------------------------ calls
     def ev_Call(self, node, st):
         func = node.func
-        args = [self.ev(a, st) for a in node.args]
+        args = []
+        for a in node.args:
+            if isinstance(a, ast.Starred):
+                sv = self.ev(a.value, st)
+                if isinstance(sv, ListV) and not any(isinstance(e, EachV) for e in sv.elems):
+                    args.extend(sv.elems)       # f(x, *(a, b)) with a known tuple is f(x, a, b)
+                    continue
+                args.append(Sym('*' + render(sv)))
+            else:
+                args.append(self.ev(a, st))
         kwargs = {}
         for k in node.keywords:
             kwargs[k.arg or '**'] = self.ev(k.value, st)
